@@ -45,7 +45,7 @@ CHECKS = {
  "C10": ("sched_mc", "stateless exhaustive exploration of thread interleavings of the real code under a controlled scheduler (decision points: every acquisition of the instrumented mutex, wake(), park, wait, environment choices), depth-first over choice vectors with iterative preemption bounding; cross-checked by a second, independent explorer (loom, DPOR) over the same source files; sequential histories with a wake-up oracle",
          "Every schedule of {producer program} || {consumer loop} for all programs up to length 3 (quick) / 4 (thorough) with unbounded preemptions, longer programs and environment choices (fresh waker per poll, spurious re-polls) at preemption bound 1..2, abort programs, gzip writer; deadlock (= lost wake-up) detection, delivered == accepted on clean end, abort => error, bounded polls after the writer is gone. Each violating schedule is replayed and must reproduce. A family that also preempts inside critical sections (the only way a try_lock can find the mutex held). loom (loomchk/) explores every program of <= 4/5 operations over {W1,W2,W3,F,A} x three waker disciplines x {drain, spurious re-poll} plus bursts of up to 70 queued chunks and gzip programs on the same chunker.rs/gzip.rs compiled in through the hook seam; every single-threaded history up to depth 4/5 is checked for 'the waker of the last Pending poll is woken as soon as data, the end or an abort becomes observable'.",
          "Scheduling granularity = lock acquisition / wake / park (complete for safe code over one Mutex, no atomics); preemption bounds, budgets, caps and program lengths per family are listed in the evidence (thorough: all programs <= 4 ops unbounded, 5 ops at bound 3, 6 ops at bound 2, environment choices at bound 2-3, gzip writer at bound 3 -- the gzip family can hit its per-program cap, in which case `exhaustive` is false); no partial-order reduction.", "2.4, 3/C10"),
- "C18": ("fs_mc", "exhaustive enumeration of file sizes x ranges x truncation/growth fault points (before every poll) on real files, std::fs as reference",
+ "C18": ("fs_mc", "exhaustive enumeration of file sizes x ranges x truncation/growth fault points (before every poll) on real files, std::fs as reference; exhaustive enumeration (preemption-bounded DFS over choice vectors) of the interleavings of the read-side system calls of threads that drain streams of one entity (read/pread/lseek interposed in the checker executable, one controlled thread runs at a time); short reads and errno answers injected at every read call in turn",
          "Every range with start/end on, just before and just after the 64 KiB read boundaries, for seven file sizes, read through get_range and through serve(); truncation to every interesting length before every poll: error within a bounded number of polls, never a clean short end, delivered bytes unchanged; metadata and ETag stability / sensitivity (append, mtime +1s, +1ns, a lattice of mtime deltas around a recent time and mirrored around the epoch, replaced inode; pre-epoch, near-future and far-future mtimes with two instances compared); non-regular files refused.",
          "Also: truncation before the stream is requested on an instance that already served one, growth after construction, two live streams of one instance, new_with_metadata, streams polled inside a multi-thread runtime, joint length / mtime changes around the recent past and the epoch. Runs on the sandbox file system (ns-granular mtimes are probed and the +1ns case is counted as skipped if the fs truncates them). Ranges of >= 2^32 bytes are read from a sparse file (first chunks in quick, to the end in thorough).", "3/C18"),
  "C19": ("fs_mc", "exhaustive enumeration of path strings (1..3/4 segments over 9 segment kinds, slashes, NUL at every position) x Accept-Encoding x auto_gzip against a fixture tree, std::fs + independent negotiation evaluator as reference",
